@@ -7,7 +7,6 @@
 package main
 
 import (
-	"bytes"
 	"errors"
 	"fmt"
 	"hash/fnv"
@@ -20,71 +19,23 @@ import (
 	"verifharness/payload"
 	"verifharness/refwire"
 	"verifharness/runner"
+	"verifharness/wiregen"
 )
 
-var errTransport = errors.New("scripted transport error")
-
-// scripted is an io.Reader that delivers data cut at the given points.
-type scripted struct {
-	data     []byte
-	cuts     []int // ascending positions where a read must stop
-	pos      int
-	ci       int
-	final    error
-	withData bool // deliver the final error together with the last bytes
-	empties  *payload.SplitMix
-	emptyRun int
-	pulled   int
-	calls    int
-}
-
-func (s *scripted) Read(p []byte) (int, error) {
-	s.calls++
-	if len(p) == 0 {
-		return 0, nil
-	}
-	if s.empties != nil && s.emptyRun < 40 && s.empties.Intn(3) == 0 {
-		s.emptyRun++
-		return 0, nil
-	}
-	s.emptyRun = 0
-	if s.pos >= len(s.data) {
-		return 0, s.final
-	}
-	for s.ci < len(s.cuts) && s.cuts[s.ci] <= s.pos {
-		s.ci++
-	}
-	end := len(s.data)
-	if s.ci < len(s.cuts) && s.cuts[s.ci] < end {
-		end = s.cuts[s.ci]
-	}
-	n := end - s.pos
-	if n > len(p) {
-		n = len(p)
-	}
-	copy(p, s.data[s.pos:s.pos+n])
-	s.pos += n
-	s.pulled += n
-	if s.pos >= len(s.data) && s.withData {
-		return n, s.final
-	}
-	return n, nil
-}
-
 type outcome struct {
-	pkts   []string // rendered packets
-	class  string   // error class
-	errStr string
-	capMax int
+	pkts           []string // rendered packets
+	class          string   // error class
+	errStr         string
+	capMax         int
 	pulledSincePkt int
-	panicked string
+	panicked       string
 }
 
 func classify(err error) string {
 	switch {
 	case err == nil:
 		return "nil"
-	case errors.Is(err, errTransport):
+	case errors.Is(err, wiregen.ErrTransport):
 		return "transport"
 	case errors.Is(err, io.EOF) || errors.Is(err, io.ErrUnexpectedEOF):
 		return "eof"
@@ -113,7 +64,7 @@ func render(stream, msg uint64, kind uint8, control bool, data []byte) string {
 	return fmt.Sprintf("s%d m%d k%d c%v len%d h%x", stream, msg, kind, control, len(data), h.Sum64())
 }
 
-func runReader(data []byte, max int, sr *scripted, limitCap int) (o outcome) {
+func runReader(data []byte, max int, sr *wiregen.Scripted, limitCap int) (o outcome) {
 	defer func() {
 		if r := recover(); r != nil {
 			o.panicked = fmt.Sprint(r)
@@ -128,7 +79,7 @@ func runReader(data []byte, max int, sr *scripted, limitCap int) (o outcome) {
 		if c > o.capMax {
 			o.capMax = c
 		}
-		if d := sr.pulled - lastPulled; d > o.pulledSincePkt {
+		if d := sr.Pulled - lastPulled; d > o.pulledSincePkt {
 			o.pulledSincePkt = d
 		}
 		if err != nil {
@@ -136,223 +87,12 @@ func runReader(data []byte, max int, sr *scripted, limitCap int) (o outcome) {
 			o.errStr = err.Error()
 			return o
 		}
-		lastPulled = sr.pulled - 0 // bytes buffered beyond the packet still count towards the next one; conservative bound below accounts for it
+		lastPulled = sr.Pulled - 0 // bytes buffered beyond the packet still count towards the next one; conservative bound below accounts for it
 		o.pkts = append(o.pkts, render(pkt.ID.Stream, pkt.ID.Message, uint8(pkt.Kind), pkt.Control, pkt.Data))
 		buf = pkt.Data
 	}
 	o.class = "runaway"
 	return o
-}
-
-type stream struct {
-	desc  string
-	data  []byte
-	edges []int
-	max   int
-}
-
-// genStream builds one byte stream from the seed.
-func genStream(r *payload.SplitMix, max int) stream {
-	effMax := max
-	if effMax == 0 {
-		effMax = 4 << 20
-	}
-	var st stream
-	st.max = max
-	var b []byte
-	var desc []string
-	sid, mid := uint64(1), uint64(1)
-	if r.Intn(4) == 0 {
-		sid = uint64(1 + r.Intn(1000))
-	}
-	body := func(n int) []byte {
-		out := make([]byte, n)
-		x := r.Next()
-		for i := range out {
-			out[i] = byte(x >> (8 * uint(i%8)))
-			if i%8 == 7 {
-				x = x*6364136223846793005 + 1442695040888963407
-			}
-		}
-		return out
-	}
-	emit := func(f refwire.Frame) {
-		b = refwire.Encode(b, f)
-		st.edges = append(st.edges, len(b))
-	}
-	sizeClass := func() int {
-		switch r.Intn(10) {
-		case 0:
-			return 0
-		case 1:
-			return effMax
-		case 2:
-			return effMax - 1
-		case 3:
-			return effMax + 1
-		case 4:
-			return effMax / 2
-		case 5:
-			return r.Intn(effMax + 1)
-		default:
-			return r.Intn(min(effMax, 300) + 1)
-		}
-	}
-	nact := 2 + r.Intn(10)
-	big := 0
-	for a := 0; a < nact; a++ {
-		kind := uint8(1 + r.Intn(7))
-		act := r.Intn(20)
-		if effMax >= 1<<20 && big >= 2 && (act == 1 || act == 2) {
-			act = 0 // keep default-max streams affordable
-		}
-		switch {
-		case act <= 7: // valid packet, possibly multi-frame
-			total := sizeClass()
-			if effMax >= 1<<20 && total > 1<<20 {
-				big++
-				if big > 2 {
-					total = r.Intn(5000)
-				}
-			}
-			data := body(total)
-			nfr := 1 + r.Intn(4)
-			if total == 0 {
-				nfr = 1 + r.Intn(2)
-			}
-			ctlAt := -1
-			if r.Intn(5) == 0 {
-				ctlAt = r.Intn(nfr)
-			}
-			off := 0
-			for i := 0; i < nfr; i++ {
-				n := (total - off) / (nfr - i)
-				if i == nfr-1 {
-					n = total - off
-				} else if n > 0 && r.Intn(2) == 0 {
-					n = r.Intn(n + 1)
-				}
-				emit(refwire.Frame{Stream: sid, Message: mid, Kind: kind, Done: i == nfr-1, Control: i == ctlAt, Data: data[off : off+n]})
-				off += n
-			}
-			desc = append(desc, fmt.Sprintf("pkt(s%d,m%d,k%d,len%d,frames%d,ctl@%d)", sid, mid, kind, total, nfr, ctlAt))
-			mid++
-		case act == 8: // new stream
-			sid += uint64(1 + r.Intn(3))
-			mid = uint64(1 + r.Intn(2))
-			desc = append(desc, fmt.Sprintf("newstream(s%d)", sid))
-		case act == 9: // unfinished packet then a higher id (discard)
-			c1, c2 := r.Intn(2) == 0, r.Intn(3) == 0
-			nun := 1 + r.Intn(3)
-			for i := 0; i < nun; i++ {
-				emit(refwire.Frame{Stream: sid, Message: mid, Kind: kind, Done: false, Control: c1 && i == nun/2, Data: body(r.Intn(50))})
-			}
-			if r.Intn(3) == 0 {
-				sid++
-				mid = 0
-			}
-			mid++
-			emit(refwire.Frame{Stream: sid, Message: mid, Kind: uint8(1 + r.Intn(7)), Done: true, Control: c2, Data: body(r.Intn(50))})
-			mid++
-			desc = append(desc, fmt.Sprintf("unfinished(x%d,ctl=%v)-then-next(ctl=%v)", nun, c1, c2))
-		case act == 10: // id regression
-			bs, bm := sid, mid
-			switch r.Intn(3) {
-			case 0:
-				if bm > 0 {
-					bm--
-				}
-			case 1:
-				if bs > 0 {
-					bs--
-				}
-			default:
-				bs, bm = 0, 0
-			}
-			emit(refwire.Frame{Stream: bs, Message: bm, Kind: kind, Done: r.Intn(2) == 0, Data: body(r.Intn(10))})
-			desc = append(desc, fmt.Sprintf("regress(s%d,m%d)", bs, bm))
-		case act == 11: // kind change inside a packet
-			emit(refwire.Frame{Stream: sid, Message: mid, Kind: kind, Done: false, Data: body(r.Intn(10))})
-			emit(refwire.Frame{Stream: sid, Message: mid, Kind: kind%7 + 1, Done: true, Data: body(r.Intn(10))})
-			mid++
-			desc = append(desc, "kind-change")
-		case act == 12: // frame declaring a huge length, few bytes follow
-			hdr := []byte{kind<<1 | 1}
-			hdr = refwire.PutUvarint(hdr, sid)
-			hdr = refwire.PutUvarint(hdr, mid)
-			hdr = refwire.PutUvarint(hdr, uint64(1)<<uint(20+r.Intn(43)))
-			b = append(b, hdr...)
-			b = append(b, body(r.Intn(3*min(effMax, 5000)+100))...)
-			desc = append(desc, "huge-declared-length")
-			a = nact // nothing parseable can follow
-		case act == 13: // never-done packet growing past max
-			n := 2 + r.Intn(6)
-			per := effMax/n + 1 + r.Intn(10)
-			if effMax >= 1<<20 {
-				per = effMax/n + 1
-				big++
-			}
-			for i := 0; i < n+1; i++ {
-				emit(refwire.Frame{Stream: sid, Message: mid, Kind: kind, Done: false, Data: body(per)})
-			}
-			desc = append(desc, fmt.Sprintf("never-done(%dx%d)", n+1, per))
-		case act == 14: // burst of small frames after a large one
-			if effMax < 1<<20 {
-				emit(refwire.Frame{Stream: sid, Message: mid, Kind: kind, Done: true, Data: body(effMax)})
-				mid++
-			}
-			n := 20 + r.Intn(400)
-			for i := 0; i < n; i++ {
-				emit(refwire.Frame{Stream: sid, Message: mid, Kind: kind, Done: true, Data: body(r.Intn(min(effMax, 8) + 1))})
-				mid++
-			}
-			desc = append(desc, fmt.Sprintf("burst(%d)", n))
-		case act == 15: // malformed varint
-			hdr := []byte{kind << 1}
-			for i := 0; i < r.Intn(3); i++ {
-				hdr = append(hdr, 1)
-			}
-			hdr = append(hdr, bytes.Repeat([]byte{0x80}, 10+r.Intn(3))...)
-			hdr = append(hdr, 1, 1, 1, 1)
-			b = append(b, hdr...)
-			desc = append(desc, "malformed-varint")
-			a = nact
-		case act == 16: // repeated done frame with the same id
-			d := body(r.Intn(5))
-			emit(refwire.Frame{Stream: sid, Message: mid, Kind: kind, Done: true, Data: d})
-			emit(refwire.Frame{Stream: sid, Message: mid, Kind: kind, Done: true, Data: d})
-			desc = append(desc, "dup-done")
-		case act == 17: // message id jump forward
-			mid += uint64(1 + r.Intn(1000))
-			desc = append(desc, "mid-jump")
-		case act == 18: // exactly-max single frame followed by more small packets
-			if effMax < 1<<20 || big < 2 {
-				big++
-				emit(refwire.Frame{Stream: sid, Message: mid, Kind: kind, Done: true, Data: body(effMax)})
-				mid++
-				for i := 0; i < 5+r.Intn(300); i++ {
-					emit(refwire.Frame{Stream: sid, Message: mid, Kind: kind, Done: true, Data: body(r.Intn(20))})
-					mid++
-				}
-				desc = append(desc, "max-then-small")
-			}
-		default: // truncated tail: a partial frame at the end of the stream
-			f := refwire.Encode(nil, refwire.Frame{Stream: sid, Message: mid, Kind: kind, Done: true, Data: body(5 + r.Intn(100))})
-			b = append(b, f[:1+r.Intn(len(f)-1)]...)
-			desc = append(desc, "truncated-tail")
-			a = nact
-		}
-	}
-	st.data = b
-	st.desc = strings.Join(desc, " ")
-	return st
-}
-
-func min(a, b int) int {
-	if a < b {
-		return a
-	}
-	return b
 }
 
 type partition struct {
@@ -363,11 +103,11 @@ type partition struct {
 	final    error
 }
 
-func partitions(st stream, r *payload.SplitMix, n int) []partition {
+func partitions(st wiregen.Stream, r *payload.SplitMix, n int) []partition {
 	var out []partition
-	L := len(st.data)
+	L := len(st.Data)
 	out = append(out, partition{name: "all", final: io.EOF})
-	out = append(out, partition{name: "all+errWithData", withData: true, final: errTransport})
+	out = append(out, partition{name: "all+errWithData", withData: true, final: wiregen.ErrTransport})
 	if L <= 300_000 {
 		one := make([]int, 0, L)
 		for i := 1; i < L; i++ {
@@ -378,12 +118,12 @@ func partitions(st stream, r *payload.SplitMix, n int) []partition {
 	// frame edges, edges+1, edges-1
 	for d := -1; d <= 1; d++ {
 		var cuts []int
-		for _, e := range st.edges {
+		for _, e := range st.Edges {
 			if e+d > 0 && e+d < L {
 				cuts = append(cuts, e+d)
 			}
 		}
-		out = append(out, partition{name: fmt.Sprintf("edges%+d", d), cuts: cuts, final: errTransport, withData: d == 0})
+		out = append(out, partition{name: fmt.Sprintf("edges%+d", d), cuts: cuts, final: wiregen.ErrTransport, withData: d == 0})
 	}
 	for len(out) < n {
 		k := []int{2, 3, 7, 29, 100, 1000, 4096, 5000, 70000}[r.Intn(9)]
@@ -392,7 +132,7 @@ func partitions(st stream, r *payload.SplitMix, n int) []partition {
 			p += 1 + r.Intn(k)
 			cuts = append(cuts, p)
 		}
-		out = append(out, partition{name: fmt.Sprintf("rand%d", k), cuts: cuts, withData: r.Intn(2) == 0, empties: r.Intn(2) == 0, final: []error{io.EOF, errTransport}[r.Intn(2)]})
+		out = append(out, partition{name: fmt.Sprintf("rand%d", k), cuts: cuts, withData: r.Intn(2) == 0, empties: r.Intn(2) == 0, final: []error{io.EOF, wiregen.ErrTransport}[r.Intn(2)]})
 	}
 	return out
 }
@@ -406,14 +146,14 @@ func finalClass(e error) string {
 
 func checkStream(id string, seed uint64, max int, nparts int) runner.Result {
 	r := &payload.SplitMix{S: seed}
-	st := genStream(r, max)
+	st := wiregen.GenStream(r, max)
 	effMax := max
 	if effMax == 0 {
 		effMax = 4 << 20
 	}
 	limit := 4*effMax + 64*1024
 
-	refPkts, refClass, trailing := refwire.ReassembleBytes(st.data, effMax)
+	refPkts, refClass, trailing := refwire.ReassembleBytes(st.Data, effMax)
 	var refR []string
 	for _, p := range refPkts {
 		refR = append(refR, render(p.Stream, p.Message, p.Kind, p.Control, p.Data))
@@ -426,22 +166,22 @@ func checkStream(id string, seed uint64, max int, nparts int) runner.Result {
 	parts := partitions(st, r, nparts)
 	var res runner.Result
 	res = runner.Result{ID: id, Verdict: runner.Held, Nontrivial: len(refPkts) > 0 || refClass != refwire.ErrNone, Events: int64(len(parts))}
-	res.Sig = fmt.Sprintf("max=%d %s", max, st.desc)
+	res.Sig = fmt.Sprintf("max=%d %s", max, st.Desc)
 	var first *outcome
 	var firstName string
 	var more []runner.Result
 	fail := func(key, format string, args ...interface{}) {
 		if len(more) < 4 {
-			more = append(more, runner.Violation(id, key, fmt.Sprintf("max=%d stream=[%s] (%d bytes): ", max, st.desc, len(st.data))+fmt.Sprintf(format, args...)))
+			more = append(more, runner.Violation(id, key, fmt.Sprintf("max=%d stream=[%s] (%d bytes): ", max, st.Desc, len(st.Data))+fmt.Sprintf(format, args...)))
 		}
 	}
 	classes := map[string]bool{}
 	for pi, p := range parts {
-		sr := &scripted{data: st.data, cuts: p.cuts, final: p.final, withData: p.withData}
+		sr := &wiregen.Scripted{Data: st.Data, Cuts: p.cuts, Final: p.final, WithData: p.withData}
 		if p.empties {
-			sr.empties = &payload.SplitMix{S: seed + uint64(pi)}
+			sr.Empties = &payload.SplitMix{S: seed + uint64(pi)}
 		}
-		o := runReader(st.data, max, sr, limit)
+		o := runReader(st.Data, max, sr, limit)
 		if o.panicked != "" {
 			fail("reader-panic", "partition %s: panic %s", p.name, o.panicked)
 			continue
@@ -489,11 +229,11 @@ func checkStream(id string, seed uint64, max int, nparts int) runner.Result {
 			fail("partition-dependent", "partition %s: %d packets then %q (%s); partition %s: %d packets then %q (%s)", p.name, len(o.pkts), cls, o.errStr, firstName, len(first.pkts), first.class, first.errStr)
 		}
 	}
-	res.Stats = map[string]int64{"partitions": int64(len(parts)), "ref_packets": int64(len(refR)), "stream_bytes": int64(len(st.data))}
+	res.Stats = map[string]int64{"partitions": int64(len(parts)), "ref_packets": int64(len(refR)), "stream_bytes": int64(len(st.Data))}
 	for c := range classes {
 		res.Stats["class_"+c]++
 	}
-	res.Sample = map[string]interface{}{"max": max, "stream": st.desc, "bytes": len(st.data), "partitions": len(parts), "reference_packets": len(refR), "reference_error": string(refClass)}
+	res.Sample = map[string]interface{}{"max": max, "stream": st.Desc, "bytes": len(st.Data), "partitions": len(parts), "reference_packets": len(refR), "reference_error": string(refClass)}
 	if len(more) > 0 {
 		v := more[0]
 		v.Events = res.Events
